@@ -85,8 +85,10 @@ func (t *Tokenizer) Parse(buf []byte, handler oj.TokenHandler) (err error) {
 		}
 	}()
 	// Skip BOM if present.
-	if 3 < len(buf) && buf[0] == 0xEF {
-		if buf[1] == 0xBB && buf[2] == 0xBF {
+	// A token can start with any non ASCII character, only 0xEF 0xBB is
+	// taken as the start of a BOM.
+	if 3 < len(buf) && buf[0] == 0xEF && buf[1] == 0xBB {
+		if buf[2] == 0xBF {
 			t.tokenizeBuffer(buf[3:], true)
 		} else {
 			return fmt.Errorf("expected BOM at 1:3")
@@ -138,7 +140,10 @@ func (t *Tokenizer) Load(r io.Reader, handler oj.TokenHandler) (err error) {
 	}
 	var skip int
 	// Skip BOM if present.
-	if 3 < len(buf) && buf[0] == 0xEF && buf[1] == 0xBB && buf[2] == 0xBF {
+	if 3 < len(buf) && buf[0] == 0xEF && buf[1] == 0xBB {
+		if buf[2] != 0xBF {
+			return fmt.Errorf("expected BOM at 1:3")
+		}
 		skip = 3
 	}
 	for {
